@@ -775,6 +775,28 @@ def analyse_class(ctx, rule: str, family: Family, cname: str) -> Tuple[int, int]
                             found = True
             if not found:
                 raise AnalysisError('DSF: no defining site of eager attribute %s left in %s' % (a, spec.sites))
+    # every attribute the table names must still exist (be stored somewhere in the class family): a renamed private
+    # attribute would otherwise make the table pass vacuously
+    stored: Set[str] = set()
+    fam_classes = []
+    for cn_ in set(family.classes) | {cname}:
+        if cn_ in M.classes:
+            for k in M.mro(M.cls(cn_)) + M.subclasses(M.cls(cn_)):
+                if k not in fam_classes:
+                    fam_classes.append(k)
+    for k in fam_classes:
+        for dct in (k.methods, k.setters, k.getters):
+            for f in dct.values():
+                for n in ast.walk(f.node):
+                    if isinstance(n, ast.Attribute) and isinstance(n.ctx, (ast.Store, ast.Del)):
+                        stored.add(n.attr)
+        stored |= set(k.class_attrs)
+    for a, spec in family.specs.items():
+        names = {a.split('.')[0]} | {d.split('.')[0] for d in spec.deps}
+        gone = sorted(x for x in names if x not in stored)
+        if gone:
+            raise AnalysisError('DSF: attribute(s) %s named in the derived-state table of %s are stored nowhere in the class any more '
+                                '(renamed?): cannot tell' % (gone, cname))
     nob = ndis = 0
     entries = public_entries(M, cls)
     if not entries:
